@@ -273,7 +273,8 @@ func c18Handler(prop string, tier string, r *Rec) c18Result {
 		}
 		n++
 		for _, f := range hostileFrags {
-			for _, v := range []string{s + " " + f, f + " " + s, s + f, s[:len(s)/2] + f + s[len(s)/2:]} {
+			for _, v := range []string{s + " " + f, f + " " + s, s + f, s[:len(s)/2] + f + s[len(s)/2:],
+				s + `\2f* ` + f + ` \2a/`, s + ` \00002f* ` + f + ` \00002a/`, s + " /* " + f + " */", "/**/" + s + "/**/ " + f, s + `\20 ` + f} {
 				res.mutants++
 				if err := e2eStyle(prop, v); err != nil {
 					res.fail = &Case{Prop: "C18", Kind: "e2e", Strs: []BStr{BStr(prop), BStr(v)}, Clause: err.Error()}
